@@ -184,8 +184,10 @@ fn run<T: E, N: ArrayLength>(kv: &KV, tracked: bool) -> String {
     match op {
         "boxed_generate" | "default_boxed" => {
             start(fail_at);
+            let mut ncalls = 0usize;
             let r = catch_unwind(AssertUnwindSafe(|| {
                 Box::<GenericArray<T, N>>::generate(|i| {
+                    ncalls += 1;
                     if bad_call == Some(i as u64) {
                         std::panic::resume_unwind(Box::new(Inject));
                     }
@@ -208,25 +210,26 @@ fn run<T: E, N: ArrayLength>(kv: &KV, tracked: bool) -> String {
             // (boxed generate's first allocator call, if it has the array's layout, is the array's block)
             let req = match s.first { Some((_, sz, al)) if (sz, al) == lay => 1, _ => 0 };
             let fre = if req == 1 { s.first_freed } else { 0 };
-            format!("res={} items=[{}] block_req={} block_free={} zero_req={}{} | orc={}", res, show_nats(items), req, fre, s.zero_req, d, orc(discipline(&s)))
+            let mut f = discipline(&s);
+            if res == "ok" && ncalls != n { f.push(format!("generator-called-{}-times", ncalls)); }
+            format!("res={} items=[{}] calls={} block_req={} block_free={} zero_req={}{} | orc={}", res, show_nats(items), ncalls, req, fre, s.zero_req, d, orc(f))
         }
         "try_from_vec" | "try_from_boxed_slice" | "vec_try_into" | "box_slice_try_into" => {
+            start(-1);
             let mut v: Vec<T> = Vec::with_capacity(cap.max(l));
             for i in 0..l { v.push(T::mk(1 + i as u64)); }
             let src_ptr = v.as_ptr() as usize;
-            start(-1);
             let (res, items, same): (&str, Vec<u64>, bool) = match op {
                 "try_from_vec" => match GenericArray::<T, N>::try_from_vec(v) {
                     Ok(b) => { let p = b.as_ptr() as usize; let it = paused(|| b.iter().map(|x| x.eid()).collect()); drop(b); ("ok", it, p == src_ptr) }
                     Err(_) => ("err", vec![], false),
                 },
                 "try_from_boxed_slice" => {
-                    RECORD.store(false, Ordering::SeqCst);
                     let bs = v.into_boxed_slice();
                     let p0 = bs.as_ptr() as usize;
-                    RECORD.store(true, Ordering::SeqCst);
+                    let c0 = NEV.load(Ordering::SeqCst);
                     match GenericArray::<T, N>::try_from_boxed_slice(bs) {
-                        Ok(b) => { let p = b.as_ptr() as usize; let calls = NEV.load(Ordering::SeqCst); let it = paused(|| b.iter().map(|x| x.eid()).collect()); drop(b); ("ok", it, p == p0 && calls == 0) }
+                        Ok(b) => { let p = b.as_ptr() as usize; let calls = NEV.load(Ordering::SeqCst) - c0; let it = paused(|| b.iter().map(|x| x.eid()).collect()); drop(b); ("ok", it, p == p0 && calls == 0) }
                         Err(_) => ("err", vec![], false),
                     }
                 }
@@ -235,9 +238,7 @@ fn run<T: E, N: ArrayLength>(kv: &KV, tracked: bool) -> String {
                     Err(_) => ("err", vec![], false),
                 },
                 _ => {
-                    RECORD.store(false, Ordering::SeqCst);
                     let bs = v.into_boxed_slice();
-                    RECORD.store(true, Ordering::SeqCst);
                     match GenericArray::<T, N>::try_from(bs) {
                         Ok(a) => { let it = paused(|| a.iter().map(|x| x.eid()).collect()); drop(a); ("ok", it, false) }
                         Err(_) => ("err", vec![], false),
@@ -247,30 +248,31 @@ fn run<T: E, N: ArrayLength>(kv: &KV, tracked: bool) -> String {
             let s = stop();
             let d = drop_report(tracked);
             let mut f = discipline(&s);
-            // the Vec's own block was requested before recording started: its release is not "mismatched"
-            f.retain(|x| !x.starts_with("mismatched-frees") || s.mismatched > 1);
             let want_ok = l == n;
+            let o1 = op == "try_from_boxed_slice" || (op == "try_from_vec" && cap <= l);
+            if res == "ok" && o1 && !same { f.push("documented-O(1)-conversion-did-not-keep-the-block".to_string()); }
             if (res == "ok") != want_ok { f.push("length-check".to_string()); }
             if res == "ok" && items != (1..=n as u64).map(|i| T::mk(i).eid()).collect::<Vec<_>>() { f.push("contents".to_string()); }
             let same_s = if op.starts_with("try_from") && res == "ok" && l == cap.max(l) && cap <= l { format!(" same_block={}", same as u8) } else { String::new() };
             format!("res={} items=[{}]{}{} | orc={}", res, show_nats(items), same_s, d, orc(f))
         }
         "into_boxed_slice" | "into_vec" | "from_ga_box_slice" | "from_ga_vec" | "box_into_iter" => {
+            start(-1);
             let a: GenericArray<T, N> = (0..n as u64).map(|i| T::mk(1 + i)).collect();
             let b = Box::new(a);
             let p0 = b.as_ptr() as usize;
-            start(-1);
+            let c0 = NEV.load(Ordering::SeqCst);
             let (items, same): (Vec<u64>, bool) = match op {
-                "into_boxed_slice" => { let bs = b.into_boxed_slice(); let calls = NEV.load(Ordering::SeqCst); let it = paused(|| bs.iter().map(|x| x.eid()).collect()); let same = bs.as_ptr() as usize == p0 && calls == 0; drop(bs); (it, same) }
-                "into_vec" => { let v = b.into_vec(); let calls = NEV.load(Ordering::SeqCst); let it = paused(|| v.iter().map(|x| x.eid()).collect()); let same = v.as_ptr() as usize == p0 && calls == 0 && v.len() == n; drop(v); (it, same) }
-                "from_ga_box_slice" => { let bs: Box<[T]> = (*b).into(); let it = paused(|| bs.iter().map(|x| x.eid()).collect()); drop(bs); (it, false) }
-                "from_ga_vec" => { let v: Vec<T> = (*b).into(); let it = paused(|| v.iter().map(|x| x.eid()).collect()); drop(v); (it, false) }
+                "into_boxed_slice" => { let bs = b.into_boxed_slice(); let calls = NEV.load(Ordering::SeqCst) - c0; let it = paused(|| bs.iter().map(|x| x.eid()).collect()); let same = bs.as_ptr() as usize == p0 && calls == 0; drop(bs); (it, same) }
+                "into_vec" => { let v = b.into_vec(); let calls = NEV.load(Ordering::SeqCst) - c0; let it = paused(|| v.iter().map(|x| x.eid()).collect()); let same = v.as_ptr() as usize == p0 && calls == 0 && v.len() == n; drop(v); (it, same) }
+                "from_ga_box_slice" => { let b = b; let bs: Box<[T]> = (*b).into(); let it = paused(|| bs.iter().map(|x| x.eid()).collect()); drop(bs); (it, false) }
+                "from_ga_vec" => { let b = b; let v: Vec<T> = (*b).into(); let it = paused(|| v.iter().map(|x| x.eid()).collect()); drop(v); (it, false) }
                 _ => { let it: Vec<u64> = paused(|| Vec::new()); let mut it = it; for x in b { let e = x.eid(); paused(|| it.push(e)); } (it, false) }
             };
             let s = stop();
             let d = drop_report(tracked);
             let mut f = discipline(&s);
-            f.retain(|x| !x.starts_with("mismatched-frees") || s.mismatched > 1);
+            if op.starts_with("into_") && !same { f.push("documented-O(1)-conversion-did-not-keep-the-block".to_string()); }
             if items != (1..=n as u64).map(|i| T::mk(i).eid()).collect::<Vec<_>>() { f.push("contents".to_string()); }
             let same_s = if op.starts_with("into_") { format!(" same_block={}", same as u8) } else { String::new() };
             format!("res=ok items=[{}]{}{} | orc={}", show_nats(items), same_s, d, orc(f))
@@ -290,9 +292,9 @@ fn run<T: E, N: ArrayLength>(kv: &KV, tracked: bool) -> String {
             format!("res={} items=[{}]{} | orc={}", res, show_nats(items), d, orc(f))
         }
         "box_map" | "box_zip" => {
+            start(-1);
             let a: Box<GenericArray<T, N>> = Box::new((0..n as u64).map(|i| T::mk(1 + i)).collect());
             let mut b2: Option<Box<GenericArray<T, N>>> = if op == "box_zip" { Some(Box::new((0..n as u64).map(|i| T::mk(101 + i)).collect())) } else { None };
-            start(-1);
             let mut k = 0u64;
             let r = catch_unwind(AssertUnwindSafe(|| {
                 if op == "box_map" {
@@ -307,9 +309,7 @@ fn run<T: E, N: ArrayLength>(kv: &KV, tracked: bool) -> String {
             };
             let s = stop();
             let d = drop_report(tracked);
-            let mut f = discipline(&s);
-            // the two input boxes were allocated before recording started
-            f.retain(|x| !x.starts_with("mismatched-frees") || s.mismatched > 2);
+            let f = discipline(&s);
             format!("res={} items=[{}]{} | orc={}", res, show_nats(items), d, orc(f))
         }
         _ => "bad-op".to_string(),
